@@ -962,6 +962,152 @@ fn fuzz_case(g: &mut G, rule_files: &[String]) -> J {
     }
 }
 
+/// add / remove / alter fields that no rule generated here can address: the names below are
+/// never used as field names by the generators (they include the one-character keys that the
+/// matrix optimisation uses internally)
+fn perturb(g: &mut G, d: &J, depth: usize) -> J {
+    const EXTRA: &[&str] = &["zz", "\u{0}", "\u{1}", "\u{2}", "q9", "zz.f", "Zf"];
+    match d["t"].as_str().unwrap_or("") {
+        "O" => {
+            let mut kv: Vec<J> = vec![];
+            for p in d["kv"].as_array().cloned().unwrap_or_default() {
+                let k = str_of(&p[0]).unwrap_or_default();
+                if EXTRA.contains(&k.as_str()) {
+                    match g.r.below(3) {
+                        0 => continue,                                       // remove
+                        1 => kv.push(json!([p[0], s_node(&g.word(3, true))])), // alter
+                        _ => kv.push(p.clone()),
+                    }
+                } else if depth < 3 {
+                    kv.push(json!([p[0], perturb(g, &p[1], depth + 1)]));
+                } else {
+                    kv.push(p.clone());
+                }
+            }
+            let n = g.r.below(3);
+            for _ in 0..n {
+                let k = *g.r.pick(EXTRA);
+                if kv.iter().any(|p| str_of(&p[0]).map(|x| x == k).unwrap_or(false)) {
+                    continue;
+                }
+                let v = match g.r.below(4) {
+                    0 => s_node(&g.word(3, false)),
+                    1 => i_node(&g.int_text()),
+                    2 => json!({"t":"A","vs":[s_node("a")]}),
+                    _ => obj(vec![("f".into(), s_node("x"))]),
+                };
+                let pos = g.r.below(kv.len() + 1);
+                kv.insert(pos, json!([cps(k), v]));
+            }
+            json!({"t":"O","kv":kv})
+        }
+        "A" if depth < 3 => json!({"t":"A","vs":d["vs"].as_array().cloned().unwrap_or_default().iter().map(|x| perturb(g, x, depth + 1)).collect::<Vec<_>>()}),
+        _ => d.clone(),
+    }
+}
+
+// ---------------------------------------------------------------------------------------------
+// C17: reorder operands at positions that are not underneath a negation or a none-of quantifier
+
+fn shuffle(g: &mut G, v: &mut Vec<J>) {
+    for i in (1..v.len()).rev() {
+        let j = g.r.below(i + 1);
+        v.swap(i, j);
+    }
+}
+
+fn neg_refs(c: &J, under: bool, out: &mut std::collections::HashSet<String>) {
+    match c["t"].as_str().unwrap_or("") {
+        "and" | "or" => {
+            neg_refs(&c["l"], under, out);
+            neg_refs(&c["r"], under, out);
+        }
+        "not" => neg_refs(&c["e"], true, out),
+        "par" => neg_refs(&c["e"], under, out),
+        "id" | "all" => {
+            if under {
+                out.insert(str_of(&c["n"]).unwrap_or_default());
+            }
+        }
+        "of" => {
+            if under || c["c"].as_u64() == Some(0) {
+                out.insert(str_of(&c["n"]).unwrap_or_default());
+            }
+        }
+        _ => {}
+    }
+}
+
+fn permute_cond(g: &mut G, c: &J, under: bool) -> J {
+    match c["t"].as_str().unwrap_or("") {
+        t @ ("and" | "or") => {
+            let l = permute_cond(g, &c["l"], under);
+            let r = permute_cond(g, &c["r"], under);
+            if !under && g.r.chance(1, 2) {
+                json!({"t":t,"l":r,"r":l})
+            } else {
+                json!({"t":t,"l":l,"r":r})
+            }
+        }
+        "not" => json!({"t":"not","e":permute_cond(g, &c["e"], true)}),
+        "par" => json!({"t":"par","e":permute_cond(g, &c["e"], under)}),
+        _ => c.clone(),
+    }
+}
+
+fn permute_entries(g: &mut G, es: &J) -> J {
+    let mut out: Vec<J> = es.as_array().cloned().unwrap_or_default().into_iter().map(|e| permute_entry(g, &e)).collect();
+    shuffle(g, &mut out);
+    J::Array(out)
+}
+
+fn permute_entry(g: &mut G, e: &J) -> J {
+    let mut e = e.clone();
+    let neg = e["m"] == "not" || (e["m"] == "of" && e["c"].as_u64() == Some(0));
+    if neg {
+        return e;
+    }
+    let v = e["v"].clone();
+    e["v"] = match v["t"].as_str().unwrap_or("") {
+        "map" => json!({"t":"map","es":permute_entries(g, &v["es"])}),
+        "list" => {
+            let mut vs: Vec<J> = v["vs"].as_array().cloned().unwrap_or_default().into_iter().map(|m| {
+                if m["t"] == "map" { json!({"t":"map","es":permute_entries(g, &m["es"])}) } else { m }
+            }).collect();
+            shuffle(g, &mut vs);
+            json!({"t":"list","vs":vs})
+        }
+        _ => v,
+    };
+    e
+}
+
+pub fn permute_src(g: &mut G, src: &J) -> J {
+    let mut neg = std::collections::HashSet::new();
+    neg_refs(&src["cond"], false, &mut neg);
+    let cond = permute_cond(g, &src["cond"], false);
+    let mut ids = vec![];
+    for pair in src["ids"].as_array().cloned().unwrap_or_default() {
+        let name = str_of(&pair[0]).unwrap_or_default();
+        if neg.contains(&name) {
+            ids.push(pair);
+            continue;
+        }
+        let b = &pair[1];
+        let nb = if b["t"] == "seq" {
+            let mut ms: Vec<J> = b["ms"].as_array().cloned().unwrap_or_default().into_iter()
+                .map(|m| json!({"t":"map","es":permute_entries(g, &m["es"])})).collect();
+            shuffle(g, &mut ms);
+            json!({"t":"seq","ms":ms})
+        } else {
+            json!({"t":"map","es":permute_entries(g, &b["es"])})
+        };
+        ids.push(json!([pair[0], nb]));
+    }
+    shuffle(g, &mut ids);
+    json!({"cond":cond,"ids":ids})
+}
+
 pub fn gen_cases(topic: &str, seed: u64, n: usize, path: &str) -> Result<(), String> {
     if topic == "fuzz" || topic == "condfuzz" || topic == "identfuzz" {
         let mut g = G::new(seed ^ 0xF022);
@@ -992,6 +1138,8 @@ pub fn gen_cases(topic: &str, seed: u64, n: usize, path: &str) -> Result<(), Str
         w.flush().map_err(|e| e.to_string())?;
         return Ok(());
     }
+    let force = topic.starts_with("ic+");
+    let topic = topic.strip_prefix("ic+").unwrap_or(topic);
     let mut g = G::new(seed ^ topic.bytes().fold(0u64, |a, b| a.wrapping_mul(131).wrapping_add(b as u64)));
     let mut w = BufWriter::new(File::create(path).map_err(|e| e.to_string())?);
     for _ in 0..n {
@@ -1015,6 +1163,27 @@ pub fn gen_cases(topic: &str, seed: u64, n: usize, path: &str) -> Result<(), Str
         let c: J = match topic {
             "lang" => json!({"topic":"lang","oracle":true,"wt":true,"src":src,"docs":docs,
                              "plan":{"tri":true,"sws":[[]]}}),
+            // C16: recorded find() calls, and documents perturbed in fields the rule does not address
+            "find" => {
+                let mut all_docs = vec![];
+                let mut dcls = vec![];
+                for (ci, d) in docs.iter().enumerate() {
+                    all_docs.push(d.clone());
+                    dcls.push(ci);
+                    for _ in 0..2 {
+                        all_docs.push(perturb(&mut g, d, 0));
+                        dcls.push(ci);
+                    }
+                }
+                json!({"topic":"find","oracle":true,"wt":true,"src":src,"docs":all_docs,"dcls":dcls,
+                       "plan":{"tri":false,"scope":"sw","sws":[[], [true,true,true,true], [true,false,false,true], [false,true,false,false]],"find":true}})
+            }
+            // C17: the same rule with its operands reordered (positive positions only)
+            "perm" => {
+                let alts: Vec<J> = (0..3).map(|_| permute_src(&mut g, &src)).collect();
+                json!({"topic":"perm","oracle":false,"wt":true,"src":src,"alts":alts,"docs":docs,
+                       "plan":{"tri":false,"sws":[[]]}})
+            }
             // C08: longer quantified lists with their explicit forms
             "quant" => {
                 let class = *g.r.pick(&["str", "str", "str", "num", "bool"]);
@@ -1282,8 +1451,31 @@ pub fn gen_cases(topic: &str, seed: u64, n: usize, path: &str) -> Result<(), Str
                                      "reprs":["json","jsontext","yamltext","hm","own","ownsigned","doc"]}}),
             _ => return Err(format!("unknown topic {}", topic)),
         };
+        let mut c = c;
+        if force {
+            force_ic(&mut c["src"]);
+            if let Some(a) = c.get_mut("alts") {
+                force_ic(a);
+            }
+            c["plan"]["scope"] = json!("sw");
+        }
         writeln!(w, "{}", c).map_err(|e| e.to_string())?;
     }
     w.flush().map_err(|e| e.to_string())?;
     Ok(())
+}
+
+fn force_ic(v: &mut J) {
+    match v {
+        J::Object(m) => {
+            if m.get("t").and_then(|t| t.as_str()) == Some("pat") {
+                m.insert("ic".into(), J::Bool(true));
+            }
+            for (_, x) in m.iter_mut() {
+                force_ic(x);
+            }
+        }
+        J::Array(a) => a.iter_mut().for_each(force_ic),
+        _ => {}
+    }
 }
